@@ -148,12 +148,32 @@ def check_method(ck, facts, adapter, trait, name, fn, spec):
                 a = provenance(f, gt["args"][0], transparent=())[-1]
                 if a[0] == "param" and a[1] == 5 and edge_dominates(f, (cand, bs[1]), bi):
                     guard_ok = True
+            if g == "is_none" and call_name_matches(gt, r"Option::<T>::is_some$"):
+                a = provenance(f, gt["args"][0], transparent=())[-1]
+                other = [x for x in f.succs(cand) if x != bs[1]]
+                if a[0] == "param" and a[1] == 5 and len(other) == 1 and edge_dominates(f, (cand, other[0]), bi):
+                    guard_ok = True
             if g == "matches(None)" and call_name_matches(gt, r"GraphNameMatcher>?::matches$"):
                 a = provenance(f, gt["args"][0], transparent=())[-1]
                 n = f.origin(gt["args"][1])
                 if a[0] == "param" and a[1] == 5 and n[0] == "agg" and n[1].get("vname") == "None" and edge_dominates(f, (cand, bs[1]), bi):
                     guard_ok = True
                     # and the other edge must not reach the store
+        if not guard_ok and g == "is_none":
+            # the same test spelled `match g { None => forward, Some(_) => .. }`: switch on the discriminant of the parameter
+            for cand in sorted(f.dominators().get(bi, ())):
+                tt = f.blocks[cand]["t"]
+                if tt["t"] != "switch":
+                    continue
+                o = f.origin(tt["on"])
+                if o[0] == "rvalue" and o[1][0] == "discr":
+                    src = provenance(f, ["c", o[1][1]], transparent=())[-1]
+                    if src[0] == "param" and src[1] == 5 and not [p for p in src[2] if p != "*"]:
+                        none_t = dict((v, b) for v, b in tt["vals"]).get("0")
+                        if none_t is None and all(v != "0" for v, _ in tt["vals"]):
+                            none_t = tt["else"]
+                        if none_t is not None and edge_dominates(f, (cand, none_t), bi):
+                            guard_ok = True
         if not guard_ok:
             ck.bad("R11.1", key + "#guard", "%s::%s forwards to the wrapped graph without the default-graph test `%s` on its graph argument"
                    % (adapter, name, g), fn.loc)
